@@ -33,6 +33,18 @@
 #include "config.h"
 
 static MPT_STRUCT(node) *root;          /* private list for tree 'r' */
+
+/* allocation failure by size ('g failsize <n>'): the first malloc of exactly <n> bytes inside the next assignment fails
+ * (the name of a path element that does not fit into its node is allocated with length + 1 bytes) */
+static size_t fail_size;
+static int fail_armed;
+extern void *__real_malloc(size_t);
+extern void *__wrap_malloc(size_t);
+void *__wrap_malloc(size_t n)
+{
+	if (fail_armed && fail_size && n == fail_size) { fail_size = 0; return 0; }
+	return __real_malloc(n);
+}
 #define MAXV 16
 static MPT_INTERFACE(metatype) *views[MAXV];
 static int nviews;
@@ -387,8 +399,11 @@ int main(void)
 				MPT_STRUCT(value) di = MPT_VALUE_INIT('i', &ival);
 				p.sep = sep; p.assign = 0;
 				mpt_path_set(&p, ptxt, -1);
+				fail_armed = 1;
 				if (kind == 1) {
-					result(mpt_node_assign(&root, &p, isint ? &di : &d) ? "ok" : "refused", "node");
+					MPT_STRUCT(node) *an = mpt_node_assign(&root, &p, isint ? &di : &d);
+					fail_armed = 0; fail_size = 0;
+					result(an ? "ok" : "refused", "node");
 				} else if (isint) {
 					if (!cfg) {
 						static MPT_INTERFACE(metatype) *gl;
@@ -396,11 +411,14 @@ int main(void)
 						if (!gl || MPT_metatype_convert(gl, MPT_ENUM(TypeConfigPtr), &cfg) < 0 || !cfg) { puts("bad-op"); free(ptxt); continue; }
 					}
 					r = cfg->_vptr->assign(cfg, &p, &di);
+					fail_armed = 0; fail_size = 0;
 					result(r < 0 ? "refused" : "ok", r < 0 ? drv_errname(r) : "0");
 				} else {
 					r = mpt_config_set(cfg, ptxt, vtxt, sep, 0);
+					fail_armed = 0; fail_size = 0;
 					result(r < 0 ? "refused" : "ok", r < 0 ? drv_errname(r) : "0");   /* the code is the value type */
 				}
+				fail_armed = 0; fail_size = 0;
 			}
 			free(ptxt); free(vtxt);
 		}
@@ -439,6 +457,12 @@ int main(void)
 				else if (got.len > 2000) result("val=?long", "0");
 				else { strcpy(buf, "val="); hex_into(buf + 4, (const uint8_t *) got.txt, got.len); result(buf, "0"); }
 			}
+		}
+		else if (!strcmp(op, "failsize") && drv_nw == 3) {
+			size_t n = 0;
+			if (drv_parse_nat(drv_w[2], &n) || n < 2 || n > 70000) { puts("bad-op"); continue; }
+			fail_size = n;
+			result("ok", "-");
 		}
 		else if (!strcmp(op, "has") && drv_nw == 5) {
 			/* existence only: no handler */
